@@ -43,6 +43,14 @@ fn column_defs() -> Vec<ColSpec> {
         v.push(n(ColSpec::new("C", Ty::I16).localizable()));
         v.push(n(ColSpec::new("C", Ty::Str(40)).category("GUID")));
         v.push(n(ColSpec::new("C", Ty::Str(0)).category("Identifier").enums(&["a", "9"])));
+        // foreign-key annotations (to an existing table O with keys 1 and 2, to
+        // the table itself, to a table that does not exist): an annotation, not
+        // a documented reason to refuse a value
+        v.push(n(ColSpec::new("C", Ty::I16).fk("O", 1)));
+        v.push(n(ColSpec::new("C", Ty::I16).range(0, 100).fk("O", 1)));
+        v.push(n(ColSpec::new("C", Ty::Str(8)).fk("O", 1)));
+        v.push(n(ColSpec::new("C", Ty::I16).fk("G", 1)));
+        v.push(n(ColSpec::new("C", Ty::I32).fk("Missing", 2)));
     }
     v
 }
@@ -109,6 +117,14 @@ fn gate_case(col: &ColSpec, vals: &[Val], reopen: bool) -> (u64, u64, Vec<V>) {
     let cols = vec![ColSpec::new("K", Ty::I16).key(), col.clone()];
     let rep = |v: &Val| json!({"kind":"c07-gate","col":col,"value":v,"reopen":reopen});
     let sfx = if reopen { ":after-reopen" } else { "" };
+    if col.fk.is_some() {
+        let other = [Op::CreateTable { name: "O".into(), cols: vec![ColSpec::new("K", Ty::I16).key()] }, Op::Insert { table: "O".into(), rows: vec![vec![Val::Int(1)], vec![Val::Int(2)]] }];
+        for op in &other {
+            if !h.apply(op).is_ok() {
+                return (0, 0, vec![("machinery:c07-fk-setup".into(), op.show(), json!({}))]);
+            }
+        }
+    }
     match h.apply(&Op::CreateTable { name: "G".into(), cols }) {
         Outcome::Ok => {}
         o => return (0, 0, vec![(format!("create-table-refused:{:?}", col.category), format!("column {:?}: {:?}", col, o), json!({"col":col}))]),
